@@ -271,6 +271,8 @@ var zzTemplates = []struct {
 	{"POST /e HTTP/1.1\r\nHost: h\r\nExpect: 100-continue\r\nContent-Length: 2\r\n\r\nhi", "POST", "/e", "hi", false},
 	{"GET /f HTTP/1.1\r\nHost: h\r\nConnection: close\r\n\r\n", "GET", "/f", "", true},
 	{"HEAD /g HTTP/1.1\r\nHost: h\r\n\r\n", "HEAD", "/g", "", false},
+	{"POST /h HTTP/1.1\r\nHost: h\r\nExpect: 100-continue\r\nTransfer-Encoding: chunked\r\n\r\n2\r\nhi\r\n0\r\n\r\n", "POST", "/h", "hi", false},
+	{"POST /i HTTP/1.0\r\nHost: h\r\nConnection: keep-alive\r\nContent-Length: 1\r\n\r\nx", "POST", "/i", "x", false},
 }
 
 // ZZ_C01_H4: k pipelined requests chosen from the template set, delivered under a symbolic
@@ -328,7 +330,7 @@ func ZZ_C01_H4() {
 	rok := true
 	for _, t := range want {
 		tp := zzTemplates[t]
-		if tp.uri == "/e" && zzHasPrefix(out[pos:], "HTTP/1.1 100 Continue\r\n\r\n") {
+		if (tp.uri == "/e" || tp.uri == "/h") && zzHasPrefix(out[pos:], "HTTP/1.1 100 Continue\r\n\r\n") {
 			pos += len("HTTP/1.1 100 Continue\r\n\r\n")
 		}
 		r, n, ok := zzReadResponse(out[pos:], tp.method == "HEAD")
